@@ -13,13 +13,13 @@ T = {
  "C04-1": ("HMAC helper pre-hashes keys longer than 64 octets also for SHA-384/512 (block size 128)", "external account binding with HS384/HS512 and a key of 65..128 octets", False, ""),
  "C04-2": ("a key roll-over on one endpoint is recorded for every endpoint of the account", "one account on two endpoints, key type edited, renewal on one endpoint then on the other", False, "caught as built by C11 (one account on 1..3 endpoints); C04's own flows use one endpoint"),
  "C05-1": ("hook output files opened in append mode", "a hook whose stdout file already exists (same token after an interrupted attempt; the same path at the next attempt)", False, "caught as built by C10 (output files of post-operation hooks are written at every attempt); C05 does not look at hook output files"),
- "C05-2": ("a hook goes either to the storage or to the certificate (partition instead of two filters)", "a hook whose type list mixes file-* events with challenge events", False, "caught as built by C10 (multi-typed hooks); C05 uses single-typed recorder hooks"),
+ "C05-2": ("a hook goes either to the storage or to the certificate (partition instead of two filters)", "a hook whose type list mixes file-* events with challenge events", True, "missed by C05 (caught as built by C10): C05 bb now lists its challenge recorders for file-post-create / file-post-edit too in a third of the cases"),
  "C06-1": ("endpoint read guard held while a certificate waits for its renewal date", "two certificates on one endpoint, one waiting, the other due", True, "C06 bb: 1..2 further certificates of the same account and endpoint with files valid for 90 days"),
  "C06-2": ("files reached through a symbolic link count as missing (lstat)", "certificate or key path is a symbolic link to a regular file", True, "C06 pr: certificate file, key file, both or the directory behind a symbolic link"),
  "C07-1": ("same change as r3-C02-2 (failed write reported as success)", "a failing write(2) of the key or certificate", True, "caught by C02 (size-limited write histories); C07's daemon runs cannot be given a file-size limit without cutting their own log"),
- "C07-2": ("same change as r3-C05-2 (partition of hooks): a hook with file-* and post-operation types never runs as post-operation hook", "a hook of type [file-post-edit, post-operation]", False, "caught as built by C10"),
+ "C07-2": ("same change as r3-C05-2 (partition of hooks): a hook with file-* and post-operation types never runs as post-operation hook", "a hook of type [file-post-edit, post-operation]", True, "missed by C07 (caught as built by C10): fault runs may add a recorder of type [file-post-create, file-post-edit, post-operation], which must run once per attempt as post-operation hook"),
  "C08-1": ("check_status treats only 4xx/5xx as errors", "an answer with status 304 or 600..999 (also 300/301 without Location, which the property leaves out)", True, "C08 enumerates status 304/600/999 at every POST; new oracle: an error answer that is not retried is the last request of its attempt (C08:error-ignored)"),
- "C08-2": ("a failed contacts update is only logged", "contacts edited, restart, the account update answered with an error", True, "C11 histories with Fault steps (the CA answers its next newAccount / account update / key-change / newOrder with a 503); caught by C11, C08's single-run fault matrix has no account update"),
+ "C08-2": ("a failed contacts update is only logged", "contacts edited, restart, the account update answered with an error", True, "C08 section account (contact update and key roll-over of a second daemon life answered with every error kind); C11 histories with Fault steps (the CA answers its next newAccount / account update / key-change / newOrder with a 503)"),
  "C09-1": ("a refused key roll-over restores a clone of the endpoint, limiter log included", "rate limit, key type edited, restart, key-change refused", True, "C09 bb: second life of the daemon with an edited key type and 1..3 refused key roll-overs under tight limits, each life judged on its own"),
  "C09-2": ("requests that got no answer are refunded to the limiter", "a peer that reads the request and hangs up", True, "C09 bb: storms of unanswered requests and of 503 answers beside the badNonce storms"),
  "C10-1": ("hook templates rendered under the hook's name (auto-escaping chosen from the name)", "a hook named like x.html / x.xml / x.json", True, "C10 hook names h1.html, h3.json, h4.xml.j2, h6.yml"),
